@@ -350,5 +350,12 @@ ProvNDenotes ==
   LET src == ModelSrc("d1")
       pn  == EncPN(ms, "d1")
   IN APNWf(pn) => (ReadBagEq(ReadAPN(pn), src) \/ ShadowExplains(src, ReadAPN(pn)))
+(* ... and read by the transcription of the library's own PROV-XML reader (DecX): C02 on the model *)
+XmlRoundTrip ==
+  LET src == ModelSrc("d1") IN
+  HasQNameLit(src) \/
+  \A force \in BOOLEAN :
+     LET r == DecX(EncAX(ms, "d1", force, NoObs)) IN
+     r.exc = "none" /\ (ReadBagEq(RdOf(r.st, RH), src) \/ ShadowExplains(src, RdOf(r.st, RH)))
 IndexOK == \A h \in DOMAIN ms.con : ms.con[h].kind # "loose" => IndexCoherent(ms.con[h])
 =============================================================================
